@@ -115,6 +115,7 @@ def plan(tier, seed):
     nt = (len(_table()) + 5) // 6
     tasks = pool.batches("table", nt, 10) + pool.batches("trees", 900 if q else 15000, 10)
     tasks += pool.batches("defect:const_index_ge6", 10 if q else 60, 10)
+    tasks += pool.batches("flow", 400 if q else 6000, 10)
     return dict(tasks=tasks, nworkers=14, time_cap=85 if q else 850)
 
 
@@ -160,9 +161,152 @@ def _tree(r, depth, leaves):
     return rec(depth)
 
 
+# ------------------------------------------------------------------ constants that flow through statements
+_FCELL = ["d0.Setting", "d1.Setting", "d2.Setting", "d3.Setting", "d4.Setting", "d5.Setting", "d0.Mode", "d1.Mode", "d2.Mode", "d3.Mode", "d0.On", "d1.On", "d2.Open", "d3.Lock"]
+_FDYN = ["d0.Temperature", "d1.Pressure", "d2.Ratio", "d3.Power", "d4.Charge", "d5.Idle"]
+_FCONST = [0, 1, 2, 3, 5, 10, -3, 2.5, 100, 0.5, -1, 7]
+
+
+def flow_program(r):
+    """-> template with {K0}.. markers (each stands for one constant: a literal in the folded variant, a stack cell
+    in the run-time variant) and the list of constants.  Shapes: constant tests of if / if not / elif / while /
+    conditional expressions, named constants, variables and parameters assigned a constant once (or once more),
+    range() bounds, globals modified by a function."""
+    ks = []
+
+    def K(v=None):
+        ks.append(r.choice(_FCONST) if v is None else v)
+        return "{K" + str(len(ks) - 1) + "}"
+
+    cells = list(_FCELL)
+    r.shuffle(cells)
+    ci = [0]
+
+    def cell():
+        ci[0] += 1
+        return cells[ci[0] % len(cells)]
+
+    defs, top, loop = [], [], []
+    names = []
+    for j in range(r.randint(1, 3)):
+        nm = f"K{j}" if r.random() < 0.7 else r.choice(["LIMIT", "DEBUG", "OFFSET", "ENABLED"]) + str(j)
+        top.append(f"{nm} = {K()}")
+        names.append(nm)
+    cmpop = lambda: r.choice(["<", ">", "<=", ">=", "==", "!="])
+    for _ in range(r.randint(3, 6)):
+        k = r.randrange(12)
+        nm = r.choice(names)
+        if k == 0:
+            t = r.choice([f"{nm}", f"not {nm}", f"{nm} {cmpop()} {K()}", f"not {nm} {cmpop()} {K()}", f"not ({nm} {cmpop()} {K()})", f"{nm} and {r.choice(names)}", f"not {nm} or {r.choice(_FDYN)} > 3"])
+            loop += [f"if {t}:", f"    {cell()} = {r.randint(10, 99)}"]
+            if r.random() < 0.7:
+                if r.random() < 0.4:
+                    loop += [f"elif {r.choice(names)} {cmpop()} {K()}:", f"    {cell()} = {r.randint(10, 99)}"]
+                loop += ["else:", f"    {cell()} = {r.randint(100, 199)}"]
+        elif k == 1:
+            f = f"clamp{len(defs)}"
+            body = [f"def {f}(n):", f"    if n {cmpop()} {nm}:", f"        n = {r.choice([nm, K(), nm + ' + 1'])}"]
+            if r.random() < 0.3:
+                body.insert(1, f"    {cell()} = n")
+            body.append(f"    {cell()} = n")
+            defs.append(body)
+            for _ in range(r.randint(1, 3)):
+                loop.append(f"{f}({r.choice(_FDYN + [K(), K()])})")
+        elif k == 2:
+            v = f"v{len(loop)}"
+            loop += [f"{v} = {nm}", f"{cell()} = {v} + {r.choice(_FDYN)}"]
+            if r.random() < 0.5:
+                loop += [f"if {r.choice(_FDYN)} > {K()}:", f"    {v} = {K()}", f"{cell()} = {v}"]
+        elif k == 3:
+            loop += [f"for i{len(loop)} in range({K(r.choice([0, 1, 2, 3]))}):", f"    {cell()} = i{len(loop)} + {nm}"]
+        elif k == 4:
+            w = f"w{len(loop)}"
+            loop += [f"{w} = {K(r.choice([0, 1, -1]))}", f"while {w} < {K(r.choice([0, 1, 2, 3]))}:", f"    {w} += 1", f"    {cell()} = {w}"]
+        elif k == 5:
+            loop.append(f"{cell()} = ({r.randint(10, 99)} if {r.choice(['', 'not '])}{nm} else {r.choice(_FDYN)})")
+        elif k == 6:
+            f = f"g{len(defs)}"
+            defs.append([f"def {f}(a, b):", f"    b = {K()}", f"    {cell()} = a + b", f"    return a * {nm}"])
+            loop.append(f"{cell()} = {f}({r.choice(_FDYN)}, {K()})")
+        elif k == 7:
+            g = f"G{len(top)}"
+            top.append(f"{g} = {K()}")
+            f = f"bump{len(defs)}"
+            defs.append([f"def {f}():", f"    global {g}", f"    {g} = {g} + {K(r.choice([1, 2]))}"])
+            loop += [f"{cell()} = {g}", f"{f}()", f"{cell()} = {g} * 2"]
+        elif k == 8:
+            loop += [f"if {nm} {cmpop()} {K()}:", f"    if not {r.choice(names)}:", f"        {cell()} = {r.randint(10, 99)}", "    else:", f"        {cell()} = {r.randint(100, 199)}"]
+        elif k == 9:
+            y = f"y{len(loop)}"
+            loop += [f"{y} = {K()}", f"{cell()} = {y}", f"{y} += {r.choice(_FDYN)}", f"{cell()} = {y}"]
+        elif k == 10:
+            loop.append(f"{cell()} = {r.choice(['min', 'max'])}({nm}, {r.choice(_FDYN)}) + ({nm} % {K(r.choice([2, 3, 5, 360]))})")
+        else:
+            loop.append(f"{cell()} = {nm} {r.choice(['+', '-', '*', '%', '//'][:4])} {K(r.choice([2, 3, 5, 360, 7]))}")
+    L = [l for d in defs for l in d] + top + ["while True:", "    yield_()"] + ["    " + l for l in loop]
+    return "\n".join(L) + "\n", ks
+
+
+def render_flow(tmpl, ks, mode):
+    pre = []
+    sub = {}
+    for j, v in enumerate(ks):
+        if mode == "literal":
+            sub[f"K{j}"] = _lit(v)
+        else:
+            pre.append(f"stack[{100 + j}] = {_lit(v)}")
+            sub[f"K{j}"] = f"stack[{100 + j}]"
+    return HEADER + "\n".join(pre) + ("\n" if pre else "") + tmpl.format(**sub)
+
+
+def check_flow(case):
+    tmpl, ks = case["template"], case["constants"]
+    cnt = dict(flow_programs=1, variants_compiled=0, variants_run=0, errors=0, unmodelled=0, flow_traces_compared=0, flow_effects_compared=0, folded_vs_runtime=0, ill_conditioned=0)
+    vio = []
+    lit, stk = render_flow(tmpl, ks, "literal"), render_flow(tmpl, ks, "stack")
+    lits = H.literals(lit)
+    nontrivial = False
+    for o in case["vectors"]:
+        a, b = H.compile_src(lit, o), H.compile_src(stk, o)
+        cnt["variants_compiled"] += 2
+        if not (isinstance(a, dict) and isinstance(a.get("code"), str) and isinstance(b, dict) and isinstance(b.get("code"), str)):
+            cnt["errors"] += 1
+            continue
+        for es in case["env_seeds"]:
+            va = H.run_vm(a["code"], es, lits, soft=True, max_steps=20000, max_effects=80)
+            vb = H.run_vm(b["code"], es, lits, soft=True, max_steps=20000, max_effects=80)
+            if "unmodelled" in (va["status"], vb["status"]):
+                cnt["unmodelled"] += 1
+                continue
+            cnt["variants_run"] += 2
+            mk = lambda perturb=False: H.run_ref(lit, es, lits, perturb=perturb, max_steps=20000, max_effects=80)
+            verdict, info, cond = H.compare_conditioned(va, vb, "folded", "runtime", mk, lambda: mk(True))
+            cnt["ill_conditioned"] += int(cond)
+            cnt["flow_traces_compared"] += 1
+            cnt["flow_effects_compared"] += min(len(va["effects"]), len(vb["effects"]))
+            if verdict == "same" and len(va["effects"]) >= 3:
+                nontrivial = True
+                cnt["folded_vs_runtime"] += 1
+            if verdict == "differ":
+                ea, eb = (va["events"] or [None])[0], (vb["events"] or [None])[0]
+                vio.append(dict(signature=dict(monitor="fold-differential", event="trace-differs:" + info["kind"], variant="flow", machine_event_a=(ea or {}).get("event"), machine_event_b=(eb or {}).get("event")), triggers=sorted(set(triggers_of(lit)) | set(triggers_of(stk))), detail=dict(info=info, env=es, options=o, folded_source=lit[len(HEADER) :][:900], folded_code=a["code"][:900], runtime_code=b["code"][:900])))
+                break
+        if vio:
+            break
+    res = dict(verdict="violated" if vio else ("held" if cnt["variants_run"] else "skip"), counters=cnt, violations=vio, features=["flow"])
+    if nontrivial:
+        res["key"] = sha([tmpl, ks])
+    res["sample"] = dict(folded_variant=lit[len(HEADER) :][:300], constants=ks)
+    return res
+
+
 def gen_case(task, i):
     st = task["stream"]
     r = rng(seed_env(), ID, st, i)
+    if st == "flow":
+        tmpl, ks = flow_program(r)
+        vs = [dict(append_version=False), dict(append_version=False, inline_functions=False), dict(append_version=False, compact=True, inline_functions=r.random() < 0.5, use_push_pop_functions=r.random() < 0.5)]
+        return dict(template=tmpl, constants=ks, vectors=vs, env_seeds=[f"{i}:0", f"{i}:1"], stream=st)
     exprs = []
     if st == "table":
         exprs = [dict(t=t, v=v) for t, v in _table()[i * 6 : i * 6 + 6]]
@@ -232,6 +376,8 @@ def written(code, prog=None):
 
 
 def check_case(case):
+    if case.get("stream") == "flow":
+        return check_flow(case)
     exprs = case["exprs"]
     r = rng("c03mix", case.get("mixseed", 0))
     cnt = dict(variants_compiled=0, variants_run=0, errors=0, unmodelled=0, expressions=len(exprs), values_compared=0, folded_vs_runtime=0)
